@@ -11,6 +11,10 @@ import Mouette.Lemmas.VolBorder
 import Mouette.Lemmas.VolEdge
 import Mouette.Lemmas.VolEdgeMap
 import Mouette.Lemmas.VolRing
+import Mouette.Lemmas.VolFaceRing
+import Mouette.Lemmas.VolClosed
+import Mouette.Lemmas.VolClosedSurface
+import Mouette.Lemmas.VolAux
 /-!
 # C03 — volume connectivity answers agree with the cell list; boundary extraction
 
@@ -99,7 +103,10 @@ theorem volume_history_safe (qs : List Nat) (hq : ∀ q ∈ qs, q ∈ G.volumeGu
 
 /-- non-vacuity: the alphabet is not empty and the machine does detect a missing attribute
 (a table whose `__init__` forgets a guarded cache is rejected) -/
-example : G.volumeGuards.alphabet.length = 17 := by decide
+example : 17 ≤ G.volumeGuards.alphabet.length := by decide
+/-- the alphabet is the full public API: the inherited surface / polyline accessors are part of it -/
+example : ["half_edge_to_corner", "vertex_to_vertices", "opposite_corner", "face_to_faces", "edge_to_face", "clear"].all
+    (fun n => G.volumeGuards.alphabet.contains (G.volumeGuards.methodNames.idxOf n)) = true := by decide
 example : (Table.wellGuarded ⟨["x"], ["__init__", "get", "compute"],
     [[], [.guard 0 2, .read 0], [.write 0]], 0, [1], 5⟩) = false := by decide
 example : (Table.wellGuarded ⟨["x"], ["__init__", "get", "compute"],
@@ -334,6 +341,91 @@ theorem edge_to_cell_rotational_order (k : Conn) {e A B c0 p1 p2 : Nat} {rest cs
     ∧ WalkChain k A B c0 cs1 fs1 ∧ WalkChain k A B c0 cs2 fs2 ∧ (c0 :: cs1 ++ cs2).Nodup :=
   sortEdge_cells_order k hedge hraw hpiv hw1 hw2 hcover
 
+/-! ## 6c. Round 2: closed boundary, rotational order of `edge_to_face`, auxiliary accessors -/
+
+/-- **the extracted boundary surface is closed** (`∂∂ = 0 mod 2`). For any two distinct vertices `u v`: the number of
+border faces of the volume containing both, and the number of triangles of the extracted boundary surface containing
+both, are equal and EVEN — every undirected edge of the boundary surface lies in an even number of boundary faces.
+(Counting argument: in each tetrahedron `{u,v}` lies in exactly 2 of the 4 faces; a face in two cells is counted twice.) -/
+theorem boundary_closed {m : Mesh} (h : Conforming m) {u v : Nat} (huv : u ≠ v) :
+    (m.conn.boundaryFaces.filter fun f => hasEdge (m.face f) u v).length % 2 = 0
+    ∧ m.conn.surfaceEdgeDegree u v = (m.conn.boundaryFaces.filter fun f => hasEdge (m.face f) u v).length
+    ∧ m.conn.surfaceEdgeDegree u v % 2 = 0 :=
+  ⟨border_faces_with_edge_even h huv, surfaceEdgeDegree_eq h u v, surface_closed h huv⟩
+
+/-- **exactly two** under edge-manifoldness of the boundary surface (the decidable predicate
+`Conn.boundaryEdgeManifold`: no edge of the surface lies in more than two of its triangles): every side of every
+triangle of the boundary surface is shared by exactly two triangles. -/
+theorem boundary_closed_exactly_two {m : Mesh} (h : Conforming m) (hman : m.conn.boundaryEdgeManifold = true)
+    {F : List Nat} (hF : F ∈ m.conn.surfaceFaces) {i : Nat} (hi : i < F.length) :
+    m.conn.surfaceEdgeDegree (F.getD i 0) (F.getD ((i + 1) % F.length) 0) = 2 :=
+  surface_closed_exactly_two h hman hF hi
+
+/-- `face_to_cells(f)` lists every incident cell exactly once (in increasing order of cell id) -/
+theorem faceToCells_each_once {m : Mesh} (h : Conforming m) {f : Nat} (hf : f < m.nF) :
+    (m.conn.faceToCells f).Nodup
+    ∧ m.conn.faceToCells f = (List.range m.nC).filter fun c => (m.cellToFace c).contains f :=
+  ⟨faceToCells_nodup h hf, faceToCells_eq_filter h hf⟩
+
+/-- **other_face_side(c, f)** = the cell `c' ≠ c` on the other side of stored face `f`; `None` iff there is none
+(border face, or `c` not on `f`) -/
+theorem other_face_side_eq_spec {m : Mesh} (h : Conforming m) {c f c' : Nat} (hf : f < m.nF) :
+    m.conn.otherFaceSide c f = some c' ↔ c ≠ c' ∧ c ∈ m.conn.faceToCells f ∧ c' ∈ m.conn.faceToCells f :=
+  otherFaceSide_spec h hf
+
+/-- **common_face(c1, c2)** = the stored face whose vertices are the three vertices shared by the two cells; `None`
+when the cells do not share exactly three vertices -/
+theorem common_face_eq_spec {m : Mesh} (h : Conforming m) {c1 c2 f : Nat} (hc1 : c1 < m.nC) :
+    m.commonFace c1 c2 = some f ↔
+      ((m.cell c1).filter fun v => (m.cell c2).contains v).length = 3
+      ∧ f < m.nF ∧ (m.face f).Perm ((m.cell c1).filter fun v => (m.cell c2).contains v) :=
+  commonFace_spec h hc1
+
+/-- **in_cell_index(c, v)** = the position of `v` in the cell; `None` iff `v` is not a vertex of the cell -/
+theorem in_cell_index_eq_spec {m : Mesh} (h : Conforming m) {c : Nat} (hc : c < m.nC) (v : Nat) :
+    (∀ i, m.inCellIndex c v = some i ↔ ∃ hi : i < (m.cell c).length, (m.cell c)[i] = v)
+    ∧ (m.inCellIndex c v = none ↔ v ∉ m.cell c) :=
+  inCellIndex_spec m c v (h.cellNodup c hc)
+
+/-- **in_cell_face_index(c, f)** = the unique local index `i` with: stored face `f` = the cell minus its `i`-th vertex;
+`None` iff `f` is not a face of the cell (consistent with `cell_to_face`: `cellToFace_opposite`) -/
+theorem in_cell_face_index_eq_spec {m : Mesh} (h : Conforming m) {c f : Nat} (hc : c < m.nC) (hf : f < m.nF) :
+    (∀ i, m.inCellFaceIndex c f = some i ↔ i < 4 ∧ (m.face f).Perm ((m.cell c).eraseIdx i))
+    ∧ (m.inCellFaceIndex c f = none ↔ ∀ i < 4, ¬ (m.face f).Perm ((m.cell c).eraseIdx i)) :=
+  inCellFaceIndex_spec h hc hf
+
+/-- **cell_to_edge(c)** = the stored edges joining two vertices of the cell -/
+theorem cell_to_edge_eq_spec {m : Mesh} (hEK : (m.edges.map key).Nodup) {c e : Nat} :
+    e ∈ m.cellToEdge c ↔ e < m.nE ∧ ∃ i < (m.cell c).length, ∃ j < i,
+      (m.edge e).Perm [(m.cell c).getD i 0, (m.cell c).getD j 0] :=
+  cellToEdge_spec hEK
+
+/-- **rotational order of `edge_to_face`, border edge** (open fan): if the faces crossed by the two walks are pairwise
+distinct and are all the stored faces around `e`, the sorted answer is: backward walk reversed, then forward walk
+(both `WalkChain`s, see `edge_ring_sorted_partial`) -/
+theorem edge_to_face_order_open (k : Conn) {e A B c0 p1 p2 : Nat} {rest cs1 fs1 cs2 fs2 : List Nat}
+    (hedge : k.m.edge e = [A, B]) (hraw : k.e2cRaw e = c0 :: rest)
+    (hpiv : (k.m.cell c0).filter (fun x => x != A && x != B) = [p1, p2])
+    (hw1 : k.walk A B (k.m.nC + 1) c0 p1 [c0] = some (cs1, fs1))
+    (hw2 : k.walk A B (k.m.nC + 1) c0 p2 (cs1.reverse ++ [c0]) = some (cs2, fs2))
+    (hcover : (k.e2f.getD e []).Perm (fs2.reverse ++ fs1)) (hnd : (fs1 ++ fs2).Nodup) :
+    (∃ cs, k.sortEdge e = some (cs, fs2.reverse ++ fs1))
+    ∧ WalkChain k A B c0 cs1 fs1 ∧ WalkChain k A B c0 cs2 fs2 :=
+  ⟨sortEdge_faces_open k hedge hraw hpiv hw1 hw2 hcover hnd,
+   (walk_chain k A B _ _ _ _ _ _ hw1).1, (walk_chain k A B _ _ _ _ _ _ hw2).1⟩
+
+/-- **rotational order of `edge_to_face`, interior edge** (closed ring): the forward walk crosses `fs ++ [g]` and comes
+back to the start cell; the backward walk stops at once on the same face `g`, whose key is overwritten; the sorted
+answer is `g :: fs`, a rotation of the ring crossed by the forward walk -/
+theorem edge_to_face_order_ring (k : Conn) {e A B c0 p1 p2 g : Nat} {rest cs1 fs cs2 : List Nat}
+    (hedge : k.m.edge e = [A, B]) (hraw : k.e2cRaw e = c0 :: rest)
+    (hpiv : (k.m.cell c0).filter (fun x => x != A && x != B) = [p1, p2])
+    (hw1 : k.walk A B (k.m.nC + 1) c0 p1 [c0] = some (cs1, fs ++ [g]))
+    (hw2 : k.walk A B (k.m.nC + 1) c0 p2 (cs1.reverse ++ [c0]) = some (cs2, [g]))
+    (hcover : (k.e2f.getD e []).Perm (g :: fs)) (hnd : (g :: fs).Nodup) :
+    (∃ cs, k.sortEdge e = some (cs, g :: fs)) ∧ WalkChain k A B c0 cs1 (fs ++ [g]) :=
+  ⟨sortEdge_faces_ring k hedge hraw hpiv hw1 hw2 hcover hnd, (walk_chain k A B _ _ _ _ _ _ hw1).1⟩
+
 /-! ## 7. Non-vacuity: a concrete conforming mesh (two tetrahedra glued along a face) -/
 
 def twoTets : Mesh :=
@@ -356,5 +448,35 @@ example : ∃ fs, twoTets.conn.sortEdge 1 = some ([1, 0], fs) :=
       rw [h]; exact List.Perm.swap 1 0 [])).1
 example : twoTets.conn.walk 1 2 3 0 0 [0] = some ([], [3]) ∧ twoTets.conn.walk 1 2 3 0 3 [0] = some ([1], [0, 6]) := by
   decide +kernel
+
+/-- three tetrahedra around the interior edge (0,1) -/
+def ring3 : Mesh :=
+  { verts := [⟨0,0,-1⟩, ⟨0,0,1⟩, ⟨1,0,0⟩, ⟨-1,1,0⟩, ⟨-1,-1,0⟩],
+    edges := [[1,3],[2,3],[1,2],[0,2],[0,3],[0,1],[1,4],[3,4],[0,4],[2,4]],
+    faces := [[1,3,2],[0,2,3],[3,1,0],[0,1,2],[1,4,3],[0,3,4],[4,1,0],[1,2,4],[0,4,2]],
+    cells := [[0,1,2,3],[0,1,3,4],[0,1,4,2]] }
+
+example : ring3.conforming = true ∧ twoTets.conn.boundaryEdgeManifold = true ∧ ring3.conn.boundaryEdgeManifold = true := by
+  decide +kernel
+example : ring3.conn.surfaceEdgeDegree 0 2 = 2 ∧ ring3.conn.surfaceEdgeDegree 0 1 = 0 ∧ twoTets.conn.surfaceEdgeDegree 1 2 = 2 := by
+  decide +kernel
+/-- the hypotheses of `edge_to_face_order_ring` are satisfiable: interior edge 5 = (0,1) of `ring3` -/
+example : ∃ cs, ring3.conn.sortEdge 5 = some (cs, [2, 3, 6]) :=
+  (edge_to_face_order_ring ring3.conn (e := 5) (A := 0) (B := 1) (c0 := 0) (p1 := 2) (p2 := 3) (g := 2)
+    (rest := [1, 2]) (cs1 := [2, 1]) (fs := [3, 6]) (cs2 := [])
+    (by decide +kernel) (by decide +kernel) (by decide +kernel) (by decide +kernel) (by decide +kernel)
+    (by have h : ring3.conn.e2f.getD 5 [] = [2, 3, 6] := by decide +kernel
+        rw [h])
+    (by decide)).1
+/-- … and of `edge_to_face_order_open`: border edge 1 = (1,2) of `twoTets` -/
+example : ∃ cs, twoTets.conn.sortEdge 1 = some (cs, [6, 0, 3]) :=
+  (edge_to_face_order_open twoTets.conn (e := 1) (A := 1) (B := 2) (c0 := 0) (p1 := 0) (p2 := 3)
+    (rest := [1]) (cs1 := []) (fs1 := [3]) (cs2 := [1]) (fs2 := [0, 6])
+    (by decide +kernel) (by decide +kernel) (by decide +kernel) (by decide +kernel) (by decide +kernel)
+    (by have h : twoTets.conn.e2f.getD 1 [] = [0, 3, 6] := by decide +kernel
+        rw [h]; decide)
+    (by decide)).1
+example : twoTets.conn.otherFaceSide 0 0 = some 1 ∧ twoTets.commonFace 0 1 = some 0 ∧ twoTets.inCellFaceIndex 1 0 = some 3
+    ∧ twoTets.inCellIndex 1 4 = some 3 ∧ twoTets.cellToEdge 0 = [5, 3, 1, 4, 0, 2] := by decide +kernel
 
 end Mouette.Props.C03
